@@ -239,3 +239,115 @@ func H_C04_map_keys() {
 	o := &vN6{I: map[int]vD3{42: vD3Val("I")}, U: map[uint8]vD3{7: vD3Val("U")}, B: map[bool]*vD3{true: {N: vStr("B")}}}
 	vRunNested("C04 non-string map keys", o, false)
 }
+
+// "to any depth": a chain of sub-objects reached alternately through a pointer, a slice, a map and a
+// value-array field; every level carries a rule and a required leaf
+type vChain struct {
+	N  string            `valid:"r1"`
+	P  *vChain           `valid:"exist"`
+	S  []*vChain         `valid:"required"`
+	M  map[string]vChain `valid:"exist"`
+	PP **vChain          `valid:"exist"`
+}
+
+// vMkChain builds a chain of the given number of levels below the top object; way selects the link kind per level.
+func vMkChain(levels int, way func(level int) int, leaf string) *vChain {
+	cur := &vChain{N: leaf, S: []*vChain{}}
+	for l := levels; l >= 1; l-- {
+		up := &vChain{N: "n"}
+		switch way(l) {
+		case 0:
+			up.P = cur
+			up.S = []*vChain{nil}
+		case 1:
+			up.S = []*vChain{cur}
+		case 2:
+			up.M = map[string]vChain{"k": *cur}
+			up.S = []*vChain{nil}
+		default:
+			p := cur
+			up.PP = &p
+			up.S = []*vChain{nil}
+		}
+		cur = up
+	}
+	return cur
+}
+
+func vC04Deep(levels int) {
+	mode := vndChoice("links", 3)
+	o := vMkChain(levels, func(l int) int {
+		switch mode {
+		case 0:
+			return 0
+		case 1:
+			return 1
+		}
+		return l % 4
+	}, vStr("leaf"))
+	vRunNested("C04 chain of "+vNum(levels)+" levels", o, false)
+}
+
+func H_C04_deep40()   { vC04Deep(40) }
+func H_C04T_deep120() { vC04Deep(120) }
+
+// collections whose elements are multi-level pointers to structs
+type vN7 struct {
+	S  []**vD3          `valid:"exist"`
+	A  [2]**vD3         `valid:"required"`
+	M  map[string]**vD3 `valid:"exist"`
+	S3 []***vD3         `valid:"required"`
+	PS *[]**vD3         `valid:"exist"`
+}
+
+func vPP(v vD3) **vD3 { p := &v; return &p }
+
+func H_C04_multi_ptr_elems() {
+	o := &vN7{}
+	if vndBool("S") {
+		var nilp *vD3
+		o.S = []**vD3{vPP(vD3Val("S0")), nil, &nilp}
+	}
+	o.A[1] = vPP(vD3Val("A1"))
+	if vndBool("M") {
+		o.M = map[string]**vD3{"k": vPP(vD3Val("M"))}
+	}
+	pp := vPP(vD3Val("S3"))
+	o.S3 = []***vD3{&pp}
+	if vndBool("PS") {
+		s := []**vD3{vPP(vD3Val("PS0"))}
+		o.PS = &s
+	}
+	vRunNested("C04 collections of **T / ***T", o, false)
+}
+
+// a rule set given without a type names fields of the outermost struct only: nested types that happen to
+// have fields of the same name keep their tag rules (and their marked sub-objects stay reachable)
+type vN8In struct {
+	Tags []vD3  `valid:"exist"`
+	X    string `valid:"r2"`
+	Ex   vD3
+}
+
+type vN8 struct {
+	Tags []vD3  `valid:"required"`
+	X    string `valid:"r1"`
+	Ex   vD3
+	In   vN8In   `valid:"required"`
+	L    []vN8In `valid:"exist"`
+}
+
+func H_C04_unscoped_same_names() {
+	vUNoFail = true
+	known := vGlobalRules()
+	o := &vN8{Tags: []vD3{vD3Val("t")}, X: "x", Ex: vD3{N: "e"}, In: vN8In{Tags: []vD3{vD3Val("it")}, X: "x", Ex: vD3{N: "e"}}, L: []vN8In{{Tags: []vD3{{N: "n"}}, X: vStr("lx")}}}
+	rms := []RM{{"Tags": "r3", "X": "r3"}, {"Ex": "exist"}, {"Tags": "exist", "Ex": "required", "X": "required"}}
+	rm := rms[vndChoice("rm", len(rms))]
+	err := Struct(o, vCopyRM(rm))
+	r := vNewRef()
+	r.global = known
+	r.unscoped = rm
+	r.top(o)
+	vCheckAgainstRef("C04 unscoped rule set vs same-named nested fields", err, r)
+	vReach("end")
+}
